@@ -146,12 +146,16 @@ fn find_game(game_id: &str) -> Result<&'static Game> {
 /// # Returns
 /// * `Result<IpAddr>` - On sucess returns a resolved IP address; on failure
 ///   returns an [Error::InvalidHostname] error.
-fn resolve_ip_or_domain<T: AsRef<str>>(host: T, extra_options: &mut Option<ExtraRequestSettings>) -> Result<IpAddr> {
+fn resolve_ip_or_domain<T: AsRef<str>>(
+    host: T,
+    extra_options: &mut Option<ExtraRequestSettings>,
+    game_settings: &ExtraRequestSettings,
+) -> Result<IpAddr> {
     let host_str = host.as_ref();
     if let Ok(parsed_ip) = host_str.parse() {
         Ok(parsed_ip)
     } else {
-        set_hostname_if_missing(host_str, extra_options);
+        set_hostname_if_missing(host_str, extra_options, game_settings);
         resolve_domain(host_str)
     }
 }
@@ -180,15 +184,20 @@ fn resolve_domain(domain: &str) -> Result<IpAddr> {
 /// # Arguments
 /// * `host` - A string slice containing the hostname.
 /// * `extra_options` - A mutable reference to optional [ExtraRequestSettings].
-fn set_hostname_if_missing(host: &str, extra_options: &mut Option<ExtraRequestSettings>) {
+fn set_hostname_if_missing(
+    host: &str,
+    extra_options: &mut Option<ExtraRequestSettings>,
+    game_settings: &ExtraRequestSettings,
+) {
     if let Some(extra_options) = extra_options {
         if extra_options.hostname.is_none() {
             // If extra_options exists but hostname is None overwrite hostname in place
             extra_options.hostname = Some(host.to_string())
         }
     } else {
-        // If extra_options is None create default settings with hostname
-        *extra_options = Some(ExtraRequestSettings::default().set_hostname(host.to_string()));
+        // If extra_options is None keep the game's own request settings (they would be
+        // used if no extra options were passed at all) and only add the hostname
+        *extra_options = Some(game_settings.clone().set_hostname(host.to_string()));
     }
 }
 
@@ -479,7 +488,7 @@ fn main() -> Result<()> {
             // Process the query command
             let game = find_game(&game)?;
             let mut extra_options = extra_options;
-            let ip = resolve_ip_or_domain(&ip, &mut extra_options)?;
+            let ip = resolve_ip_or_domain(&ip, &mut extra_options, &game.request_settings)?;
 
             #[cfg(feature = "packet_capture")]
             gamedig::capture::setup_capture(capture);
